@@ -143,7 +143,12 @@ class CeluPlugin(PrimitiveLeafPlugin):
         ) -> Callable[..., ArrayLike]:
             if orig is None:
                 raise RuntimeError("Original jax.nn.celu not found")
-            return lambda *args, **kwargs: cls._PRIM.bind(*args, **kwargs)
+
+            def _patched(x: ArrayLike, alpha: float = 1.0) -> ArrayLike:
+                # alpha is a static parameter, also when passed positionally
+                return cls._PRIM.bind(x, alpha=alpha)
+
+            return _patched
 
         return [
             AssignSpec("jax.nn", "celu_p", cls._PRIM, delete_if_missing=True),
